@@ -89,6 +89,10 @@ pub fn expected_order(man: &Value) -> Vec<String> {
     }
     let mut rest: Vec<String> = all.iter().filter(|n| !prelim.contains(n)).cloned().collect();
     rest.sort(); // byte-wise string order
+    if man["format"].as_str() == Some("glyphs") {
+        // a Glyphs source: glyphOrder entries, then everything else in file order
+        rest = names.iter().filter(|n| !prelim.contains(n)).cloned().collect();
+    }
     prelim.extend(rest);
     let mut order: Vec<String> = prelim.into_iter().filter(|n| exported.contains(n)).collect();
     order.retain(|n| n != ".notdef");
@@ -400,7 +404,13 @@ pub fn check(data: &[u8], man: &Value, opts: &[String]) -> Out {
         let phantoms = [pp1, (pp1.0 + adv, 0.0), (0.0, ymax + tsb), (0.0, ymax + tsb - vadv)];
         // default advance exact
         out.stat("c04_advances", 1.0);
-        if adv != ot_round(f(&dl["width"])) {
+        // a Glyphs source zeroes the advance of nonspacing marks (glyphsLib behaviour, documented)
+        let glyphs_mark = man["format"].as_str() == Some("glyphs") && man["lib"]["public.openTypeCategories"][name].as_str() == Some("mark");
+        if glyphs_mark {
+            if adv != 0.0 {
+                out.viol("C04", format!("glyph '{name}': a nonspacing mark of a Glyphs source must have advance 0, hmtx says {adv}"));
+            }
+        } else if adv != ot_round(f(&dl["width"])) {
             out.viol("C04", format!("glyph '{name}': hmtx advance {adv} but the default master says {}", f(&dl["width"])));
         }
         if vmtx.is_some() && dl["height"].is_number() && vadv != ot_round(f(&dl["height"])) {
@@ -524,7 +534,7 @@ pub fn check(data: &[u8], man: &Value, opts: &[String]) -> Out {
             let bound = if is_default { 0.0 } else { 0.5 + 0.5 * inst.scalar_sum + 1e-3 };
             // C04: advance through HVAR and through the phantom points
             if !is_default {
-                let want = ot_round(f(&layer["width"]));
+                let want = if glyphs_mark { 0.0 } else { ot_round(f(&layer["width"])) };
                 let mut hv = None;
                 if let (Some(h), Some(ivs)) = (&hvar, &hvar_ivs) {
                     let (o, i) = match h.advance_width_mapping() {
